@@ -145,7 +145,10 @@ Proof.
     pose proof (HG m a ctx s) as G. destruct (run m a ctx s) as [[] s1]; cbn [fst snd] in G;
       [exact I | exact I | apply igood_panic; exact G | exact I].
   - destruct its; try (cbn; split; discriminate).
-    pose proof (rep_next_good m a lo0 hi0 ctx n s) as G. destruct (rep_next run m a lo0 hi0 ctx n s) as [[[] c'] s1]; exact G.
+    + pose proof (rep_next_good m a lo0 hi0 ctx n s) as G. destruct (rep_next run m a lo0 hi0 ctx n s) as [[[] c'] s1]; exact G.
+    + pose proof (HG m (TryMap PFalse FId k Empty) ctx s) as G.
+      destruct (run m (TryMap PFalse FId k Empty) ctx s) as [[] s1]; cbn [fst snd] in G;
+        [exact I | exact (proj1 G eq_refl) | apply igood_panic; exact G | exact I].
 Qed.
 
 Lemma drive_good : forall fuel m i ctx its lim pa idx acc s,
@@ -400,6 +403,7 @@ Proof.
   - (* Pratt *) apply (proj1 (pratt_good _ IH m g ops ctx n)).
   - (* GroupArr *) apply group_loop_good; exact IH.
   - (* NestedIn *) cbn [nested no_quirks]. repeat split; cbn; discriminate.
+  - (* Skip *) auto with gd.
   - (* ExtWrap *) sg IH n m g ctx s.
     destruct (alt s0) as [[q e]|]; [good_err_tac | contradiction].
 Qed.
